@@ -17,7 +17,7 @@ F_MODE = 'scnr/src/internal/compiled_scanner_mode.rs'
 F_SI = 'scnr/src/internal/scanner_impl.rs'
 F_SM = 'scnr/src/scanner_mode.rs'
 F_REG = 'scnr/src/internal/character_class_registry.rs'
-P = ['C01', 'C02', 'C06', 'C07']
+P = ['C01', 'C02', 'C04', 'C05', 'C06', 'C07']
 HERE = os.path.dirname(os.path.abspath(__file__))
 ID_SPECS = {'new': 'ensures r.0 == index', 'as_usize': 'ensures r == self.0', 'id': 'ensures r == self.0'}
 
@@ -93,6 +93,8 @@ items += [
     Struct(F_MODE, 'CompiledScannerMode', derive=[]),
     Struct(F_SI, 'ScannerImpl', derive=[], dyn_param='M'),
     RawFile(os.path.join(HERE, '..', 'common', 'dfa_wf.rs'), 'dfa_wf.rs'),
+    RawFile(os.path.join(HERE, '..', 'common', 'dfa_match.rs'), 'dfa_match.rs'),
+    RawFile('build_lang.rs'),
     RawFile(os.path.join(HERE, '..', 'common', 'scanner_wf.rs'), 'scanner_wf.rs'),
     RawFile('build_spec.rs'),
     Raw('''
